@@ -427,6 +427,49 @@ class AbsInt:
                 facts = self.capply(p, facts, env)
         return env, facts
 
+    def _switch_targets(self, b, c, env):
+        """switch over a tracked integer: {successor: refined env} of the case labels the abstract value can select
+        (Z selects `case 0` or, without one, `default`; P selects the positive cases and `default`)"""
+        cfg, f = self.cfg, self.f
+        cu = unwrap(c)
+        v = self.eval(c, env)
+        labels = {}
+        for s in cfg.succ[b]:
+            if s is None:
+                continue
+            lab = cfg.blocks[s].get('label')
+            ln = f.nodes.get(lab) if lab is not None else None
+            if ln is None:
+                labels[s] = None
+            elif ln['k'] == 'default':
+                labels[s] = 'default'
+            elif ln['k'] == 'case':
+                labels[s] = lit_val(ln.get('v'))          # 'Z', 'P' or None
+            else:
+                labels[s] = None
+        has_zero = any(x == 'Z' for x in labels.values())
+        tracked = cu is not None and cu['k'] == 'ref' and cu['d'] in self.tracked
+        out = {}
+        for s, lab in labels.items():
+            if lab is None:
+                out[s] = env
+                continue
+            if v == 'Z' and (lab == 'P' or (lab == 'default' and has_zero)):
+                continue
+            if v == 'P' and lab == 'Z':
+                continue
+            e2 = env
+            if tracked:
+                e2 = dict(env)
+                if lab == 'Z':
+                    e2[cu['d']] = 'Z'
+                elif lab == 'P':
+                    e2[cu['d']] = 'P'
+                elif lab == 'default' and has_zero and 'unsigned' in f.unit.type(f.decl(cu['d']).get('ct')):
+                    e2[cu['d']] = 'P'      # an unsigned value that is not zero
+            out[s] = e2
+        return out
+
     @staticmethod
     def _freeze(env):
         return frozenset((k, v) for k, v in env.items() if v is not None)
@@ -445,11 +488,16 @@ class AbsInt:
             for fenv, facts in list(IN[b].items()):
                 env, facts2 = self._apply_block(b, dict(fenv), facts)
                 truth = self.cond(c, env) if (two and c is not None) else None
+                sw = self._switch_targets(b, c, env) if (cfg.blocks[b].get('tk') == 'SwitchStmt' and c is not None) else None
                 for k, s in enumerate(succs):
                     if s is None:
                         continue
                     e2, f2 = env, facts2
-                    if two:
+                    if sw is not None:
+                        if s not in sw:
+                            continue          # this case label cannot be selected by the known value
+                        e2 = sw[s]
+                    elif two:
                         if truth is True and k == 1:
                             continue
                         if truth is False and k == 0:
